@@ -532,13 +532,19 @@ class C13(e2.ProgenProp):
     def _finding(case, sched=None):
         """id of the finding input class that contains this (program, schedule), else None (classes are properties of the program DAG only)"""
         na = len(case.get("arrays", []))
+        stages = case.get("stages", [])
         order = False
-        for s in case.get("stages", []):
+        for s in stages:
             f = s["f"]
             views = [j for j, i in enumerate(s["in"]) if i >= na]
-            # a broadcasting ufunc node whose operand is itself a view (mean = divide(sum(x), n) and softmax are such nodes by definition)
+            # a ufunc node whose operand is a broadcast_to view of another VIEW: every operand of an n-ary ufunc is wrapped in broadcast_to (mean =
+            # divide(sum(x), n) and softmax are such nodes by definition); for a unary ufunc an explicit broadcast_to stage over a stage result
             if f in ("mean", "softmax") or (f in UFUNC2 and views):
                 return F_DANGLING
+            if (f in UFUNC1 or f in ACTIV) and views:
+                src = stages[s["in"][0] - na]
+                if src["f"] == "broadcast_to" and src["in"][0] >= na:
+                    return F_DANGLING
             # a multi-operand node with a view operand that is not the first operand (where / stack wrap every operand in a view)
             if f in ("where", "stack") or (f in MULTI and any(j >= 1 for j in views)):
                 order = True
